@@ -239,6 +239,130 @@ func registerBig(vm *VM) {
 		y := vm.bigGet(a[1], "Cmp")
 		return fromIntTerm(cmpTerm(x, y), 64, true)
 	}
+	I["(*math/big.Int).CmpAbs"] = func(vm *VM, _ *frame, a []Value) Value {
+		x := vm.bigGet(a[0], "CmpAbs")
+		y := vm.bigGet(a[1], "CmpAbs")
+		ax := smt.Ite(smt.Lt(x, smt.Int64(0)), smt.Neg(x), x)
+		ay := smt.Ite(smt.Lt(y, smt.Int64(0)), smt.Neg(y), y)
+		return fromIntTerm(cmpTerm(ax, ay), 64, true)
+	}
+	// truncated division (Quo/Rem) from Euclidean division, forking on signs when they are not known
+	truncDiv := func(vm *VM, x, y *smt.Term) (q, r *smt.Term) {
+		if vm.Truth(fromBoolTerm(smt.Eq(y, smt.Int64(0)))) {
+			vm.goPanic("division by zero")
+		}
+		absT := func(t *smt.Term) *smt.Term { return smt.Ite(smt.Lt(t, smt.Int64(0)), smt.Neg(t), t) }
+		if y.Op != smt.OpIntConst {
+			// fork on the sign of a symbolic divisor so that the division stays by a positive term
+			if vm.Truth(fromBoolTerm(smt.Lt(y, smt.Int64(0)))) {
+				q0, r0 := smt.Div(absT(x), smt.Neg(y)), smt.Mod(absT(x), smt.Neg(y))
+				q = smt.Ite(smt.Lt(x, smt.Int64(0)), q0, smt.Neg(q0))
+				r = smt.Ite(smt.Lt(x, smt.Int64(0)), smt.Neg(r0), r0)
+				return q, r
+			}
+			q0, r0 := smt.Div(absT(x), y), smt.Mod(absT(x), y)
+			q = smt.Ite(smt.Lt(x, smt.Int64(0)), smt.Neg(q0), q0)
+			r = smt.Ite(smt.Lt(x, smt.Int64(0)), smt.Neg(r0), r0)
+			return q, r
+		}
+		ay := smt.Int(new(big.Int).Abs(y.K))
+		q0, r0 := smt.Div(absT(x), ay), smt.Mod(absT(x), ay)
+		neg := smt.Lt(x, smt.Int64(0))
+		if y.K.Sign() < 0 {
+			q = smt.Ite(neg, q0, smt.Neg(q0))
+		} else {
+			q = smt.Ite(neg, smt.Neg(q0), q0)
+		}
+		r = smt.Ite(neg, smt.Neg(r0), r0)
+		return q, r
+	}
+	I["(*math/big.Int).Quo"] = func(vm *VM, _ *frame, a []Value) Value {
+		z := vm.bigPtr(a[0], "Quo")
+		q, _ := truncDiv(vm, vm.bigGet(a[1], "Quo"), vm.bigGet(a[2], "Quo"))
+		vm.store(z, BigVal{q})
+		return z
+	}
+	I["(*math/big.Int).Rem"] = func(vm *VM, _ *frame, a []Value) Value {
+		z := vm.bigPtr(a[0], "Rem")
+		_, r := truncDiv(vm, vm.bigGet(a[1], "Rem"), vm.bigGet(a[2], "Rem"))
+		vm.store(z, BigVal{r})
+		return z
+	}
+	I["(*math/big.Int).QuoRem"] = func(vm *VM, _ *frame, a []Value) Value {
+		z := vm.bigPtr(a[0], "QuoRem")
+		rp := vm.bigPtr(a[3], "QuoRem")
+		q, r := truncDiv(vm, vm.bigGet(a[1], "QuoRem"), vm.bigGet(a[2], "QuoRem"))
+		vm.store(z, BigVal{q})
+		vm.store(rp, BigVal{r})
+		return Tuple{z, rp}
+	}
+	I["(*math/big.Int).DivMod"] = func(vm *VM, _ *frame, a []Value) Value {
+		z := vm.bigPtr(a[0], "DivMod")
+		mp := vm.bigPtr(a[3], "DivMod")
+		x, y := vm.bigGet(a[1], "DivMod"), vm.bigGet(a[2], "DivMod")
+		if vm.Truth(fromBoolTerm(smt.Eq(y, smt.Int64(0)))) {
+			vm.goPanic("division by zero")
+		}
+		vm.store(z, BigVal{smt.Div(x, y)})
+		vm.store(mp, BigVal{smt.Mod(x, y)})
+		return Tuple{z, mp}
+	}
+	I["(*math/big.Int).Lsh"] = func(vm *VM, _ *frame, a []Value) Value {
+		z := vm.bigPtr(a[0], "Lsh")
+		n := vm.concInt(a[2], "Lsh count")
+		vm.store(z, BigVal{smt.Mul(vm.bigGet(a[1], "Lsh"), smt.Int(pow2(n)))})
+		return z
+	}
+	I["(*math/big.Int).Rsh"] = func(vm *VM, _ *frame, a []Value) Value {
+		z := vm.bigPtr(a[0], "Rsh")
+		n := vm.concInt(a[2], "Rsh count")
+		vm.store(z, BigVal{smt.Div(vm.bigGet(a[1], "Rsh"), smt.Int(pow2(n)))})
+		return z
+	}
+	I["(*math/big.Int).Text"] = func(vm *VM, _ *frame, a []Value) Value {
+		if vm.concInt(a[1], "Text base") != 10 {
+			vmErr("big.Int.Text with a base other than 10")
+		}
+		return mkStr([]Atom{{Kind: aDec, T: vm.bigGet(a[0], "Text")}})
+	}
+	I["(*math/big.Rat).Abs"] = func(vm *VM, _ *frame, a []Value) Value {
+		z := vm.bigPtr(a[0], "Abs")
+		x := vm.ratGet(a[1], "Abs")
+		vm.store(z, RatVal{smt.Ite(smt.Lt(x.N, smt.Int64(0)), smt.Neg(x.N), x.N), x.D})
+		return z
+	}
+	I["(*math/big.Rat).Quo"] = func(vm *VM, _ *frame, a []Value) Value {
+		z := vm.bigPtr(a[0], "Quo")
+		x := vm.ratGet(a[1], "Quo")
+		y := vm.ratGet(a[2], "Quo")
+		if vm.Truth(fromBoolTerm(smt.Eq(y.N, smt.Int64(0)))) {
+			vm.goPanic("division by zero")
+		}
+		n := vm.mulTerms(x.N, y.D, "Rat.Quo")
+		d := vm.mulTerms(x.D, y.N, "Rat.Quo")
+		if d.Op != smt.OpIntConst {
+			if vm.Truth(fromBoolTerm(smt.Lt(d, smt.Int64(0)))) {
+				n, d = smt.Neg(n), smt.Neg(d)
+			}
+		}
+		vm.store(z, mkRat(n, d))
+		return z
+	}
+	I["(*math/big.Rat).Inv"] = func(vm *VM, _ *frame, a []Value) Value {
+		z := vm.bigPtr(a[0], "Inv")
+		x := vm.ratGet(a[1], "Inv")
+		if vm.Truth(fromBoolTerm(smt.Eq(x.N, smt.Int64(0)))) {
+			vm.goPanic("division by zero")
+		}
+		n, d := x.D, x.N
+		if d.Op != smt.OpIntConst {
+			if vm.Truth(fromBoolTerm(smt.Lt(d, smt.Int64(0)))) {
+				n, d = smt.Neg(n), smt.Neg(d)
+			}
+		}
+		vm.store(z, mkRat(n, d))
+		return z
+	}
 	I["(*math/big.Int).Sign"] = func(vm *VM, _ *frame, a []Value) Value {
 		x := vm.bigGet(a[0], "Sign")
 		return fromIntTerm(cmpTerm(x, smt.Int64(0)), 64, true)
@@ -420,6 +544,21 @@ func registerBig(vm *VM) {
 		x := vm.ratGet(a[0], "String")
 		n, d := vm.ratNormalize(x)
 		return mkStr([]Atom{{Kind: aDec, T: n}, {Kind: aConc, S: "/"}, {Kind: aDec, T: d}})
+	}
+	I["(*math/big.Rat).RatString"] = func(vm *VM, _ *frame, a []Value) Value {
+		x := vm.ratGet(a[0], "RatString")
+		n, d := vm.ratNormalize(x)
+		if vm.Truth(fromBoolTerm(smt.Eq(d, smt.Int64(1)))) {
+			return mkStr([]Atom{{Kind: aDec, T: n}})
+		}
+		return mkStr([]Atom{{Kind: aDec, T: n}, {Kind: aConc, S: "/"}, {Kind: aDec, T: d}})
+	}
+	I["(*math/big.Rat).FloatString"] = func(vm *VM, _ *frame, a []Value) Value {
+		x := vm.ratGet(a[0], "FloatString")
+		if x.N.Op != smt.OpIntConst || x.D.Op != smt.OpIntConst {
+			vmErr("big.Rat.FloatString on a symbolic value")
+		}
+		return new(big.Rat).SetFrac(x.N.K, x.D.K).FloatString(vm.concInt(a[1], "prec"))
 	}
 	I["(*math/big.Rat).SetString"] = func(vm *VM, _ *frame, a []Value) Value {
 		z := vm.bigPtr(a[0], "SetString")
